@@ -5,11 +5,11 @@ CONSTANTS
   NN0 = 2
   T100 = 1000
   Facts = {"A", "B"}
-  MaxOps = 2
-  StartAll = TRUE
-  StartSuf = {TRUE}
+  MaxOps = 3
+  StartAll = FALSE
+  StartSuf = {TRUE, FALSE}
   EvpAny = FALSE
-  WithSetLast = FALSE
+  WithSetLast = TRUE
   Guard = "before"
 VIEW View
 INVARIANTS TypeOK
